@@ -549,6 +549,62 @@ def _power_basis(model, rep):
     rep.units("power-basis derivative instances", n)
 
 
+def _layout_dependence(model, rep):
+    """gbasis receives the local points either as (dim, npts) - the same
+    points in every cell - or as (dim, ncells, npts) - facet bases,
+    per-element quadrature, probes.  lbasis returns arrays of different
+    rank for the two, so an einsum with *fixed* subscripts over them can
+    serve only one layout.  Every gbasis that contracts the local basis
+    functions with np.einsum must make the subscripts depend on the rank of
+    X (len(X.shape), X.ndim, X.shape)."""
+    R5 = "C09-R5"
+    n = 0
+    for fn in model.all_functions():
+        if fn.name != "gbasis" or fn.cls is None or \
+                not fn.path.startswith("skfem/element/"):
+            continue
+        pars = fn.params()
+        if "X" not in pars:
+            continue
+        # names bound from self.lbasis(X, ...) (also through a local helper)
+        local_fields = set()
+        for x in ast.walk(fn.node):
+            if isinstance(x, ast.Assign) and isinstance(x.value, ast.Call) \
+                    and (src(x.value.func).endswith("lbasis")
+                         or (isinstance(x.value.func, ast.Name)
+                             and "lbasis" in x.value.func.id)):
+                for t in x.targets:
+                    local_fields |= {y.id for y in ast.walk(t)
+                                     if isinstance(y, ast.Name)}
+        eins = [c for c in ast.walk(fn.node) if isinstance(c, ast.Call)
+                and src(c.func) in ("np.einsum", "numpy.einsum")
+                and any(isinstance(a, ast.Name) and a.id in local_fields
+                        for a in c.args[1:])]
+        if not eins:
+            continue
+        n += 1
+        dep = any(isinstance(x, ast.Attribute) and x.attr in ("shape",
+                                                              "ndim")
+                  and isinstance(x.value, ast.Name) and x.value.id == "X"
+                  for x in ast.walk(fn.node))
+        cons = f"{fn.cls.name}.gbasis:point-layouts"
+        if dep:
+            rep.ok(R5, cons, f"{len(eins)} contraction(s) of the local "
+                             f"basis functions, subscripts chosen by the "
+                             f"rank of X")
+        else:
+            rep.fail(R5, fn.path, fn.short(), cons,
+                     f"'{src(eins[0])[:70]}' contracts the local basis "
+                     f"functions with fixed subscripts and the method never "
+                     f"looks at the rank of X: for per-cell points (dim, "
+                     f"ncells, npts) - FacetBasis, InteriorFacetBasis, "
+                     f"probes, interpolator - einsum raises, although the "
+                     f"base class accepts both layouts", eins[0].lineno)
+    if n < 3:
+        raise AnalysisError(f"only {n} gbasis implementations contracting "
+                            f"local basis functions found")
+
+
 def run(model: Model, rep, tier: str) -> None:
     rep.rule("C09-R1", "delivered derivative field == derivative of the "
              "delivered value (grad / div / curl) as polynomial identity")
@@ -678,6 +734,7 @@ def run(model: Model, rep, tier: str) -> None:
     _check_mapping(model, rep)
     _trin3_siblings(model, rep)
     _wrappers(model, rep)
+    _layout_dependence(model, rep)
     rep.require_min("C09-R1", 240)
     rep.require_min("C09-R2", 20)
     rep.require_min("C09-R3", 28)
@@ -867,6 +924,11 @@ def _duality(rep, e: ElementInfo, name, path, ln):
 # ----------------------------------------------------------------------
 _E = "skfem/element/"
 MUTANTS = [
+    ("third-order Nedelec triangle contracts with the shared-points "
+     "subscripts only",
+     ("skfem/element/element_tri/element_tri_n3.py",
+      "        subs = 'ijkl,il,k->jkl' if len(X.shape) == 2 else "
+      "'ijkl,ikl,k->jkl'", "        subs = 'ijkl,il,k->jkl'"), "C09-R5"),
     ("TriN3: exchanged edge function's curl without the orientation sign",
      ("skfem/element/element_tri/element_tri_n3.py",
       "            curl_B = dphi_B / detDF * orient[:, None]",
